@@ -99,6 +99,8 @@ UpdDef == [ annA      |-> U(TRUE, {N("a", 0)}, {}, {}),
             apA1A2    |-> U(TRUE, {N("a", 1), N("a", 2)}, {}, {}),             \* add-path: two paths of one prefix, own ids
             apA1B2    |-> U(TRUE, {N("a", 1), N("b", 2)}, {}, {}),
             apWdA1    |-> U(TRUE, {}, {N("a", 1)}, {}),
+            apWdA1A2  |-> U(TRUE, {}, {N("a", 1), N("a", 2)}, {}),             \* two withdrawn NLRI with their own path ids
+            apWdA1B2  |-> U(TRUE, {}, {N("a", 1), N("b", 2)}, {}),
             apWdA2annB1 |-> U(TRUE, {N("b", 1)}, {N("a", 2)}, {}),
             eor       |-> U(TRUE, {}, {}, {}),
             \* malformed (RFC 4271 6.3)
